@@ -40,9 +40,7 @@ def run(chk):
         chk.fact("fe_amd64.s %s: straight-line subset, memory operands = constant offsets from pointer arguments (%d instructions)" % (name, len(fn["ins"])),
                  not probs, [K.F + name], detail="; ".join(probs[:3]))
     # aliasing: out==a, out==b, a==b, all three (loads/stores modelled in program order)
-    for pat in ("out=a", "out=b", "a=b", "out=a=b"):
-        k_alias(base, chk, pat)
-    k_alias_sq(base, chk)
+    run_kernels(chk, [("feMul alias " + pat, lambda pat=pat: k_alias(base, chk, pat)) for pat in ("out=a", "out=b", "a=b", "out=a=b")] + [("feSquare alias", lambda: k_alias_sq(base, chk))])
     # configuration diff
     t0 = time.time()
     prog2 = ir.load("purego")
@@ -78,6 +76,70 @@ def run(chk):
     chk.samples = [o.j() for o in chk.obs if "identical" in o.name][:5]
 
 
+def config_battery(seed, n=40):
+    """native differential battery = the statement of C20 itself on concrete inputs: every multiplication-based public
+    operation of the field package, in every aliasing pattern of receiver and operands, gives limb-identical results
+    in the default (assembly) and purego builds and agrees with the big-integer product; plus feMul vs feMulGeneric /
+    feSquare vs feSquareGeneric called directly in the default build."""
+    from sym import native, ref
+    import random
+    rng = random.Random(seed)
+    pool = ref.limb_candidates(rng, n)
+    ops, meta = [], []
+
+    def add(op, args, init, want=None):
+        ops.append({"op": op, "args": args, "init": init})
+        meta.append((op, args, init, want))
+    for i, a in enumerate(pool):
+        b = pool[(i * 7 + 3) % len(pool)]
+        junk = pool[(i * 5 + 1) % len(pool)]
+        A, Bv, J = ref.fmt_limbs(a), ref.fmt_limbs(b), ref.fmt_limbs(junk)
+        va, vb = ref.fe_val(a), ref.fe_val(b)
+        for fn in ("Multiply", "feMul", "feMulGeneric"):
+            add(fn, ["v", "a", "b"], {"v": J, "a": A, "b": Bv}, va * vb)
+            add(fn, ["a", "a", "b"], {"a": A, "b": Bv}, va * vb)
+            add(fn, ["b", "a", "b"], {"a": A, "b": Bv}, va * vb)
+            add(fn, ["v", "a", "a"], {"v": J, "a": A}, va * va)       # same operand twice, receiver holds something else
+            add(fn, ["a", "a", "a"], {"a": A}, va * va)
+        for fn in ("Square", "feSquare", "feSquareGeneric"):
+            add(fn, ["v", "a"], {"v": J, "a": A}, va * va)
+            add(fn, ["a", "a"], {"a": A}, va * va)
+        if i < 12:
+            add("Invert", ["v", "a"], {"v": J, "a": A}, pow(va, ref.P - 2, ref.P))
+            add("Invert", ["a", "a"], {"a": A}, pow(va, ref.P - 2, ref.P))
+            add("Pow22523", ["v", "a"], {"v": J, "a": A}, pow(va, (ref.P - 5) // 8, ref.P))
+            add("SqrtRatio", ["v", "a", "b"], {"v": J, "a": A, "b": Bv})
+            add("SqrtRatio", ["v", "a", "a"], {"v": J, "a": A})
+            add("SqrtRatio", ["a", "a", "b"], {"a": A, "b": Bv})
+    r1 = native.run_ops("field", ops)
+    r2 = native.run_ops("field", ops, tags="purego")
+    for (op, args, init, want), x, y in zip(meta, r1, r2):
+        if "panic" in x or "panic" in y:
+            return dict(what="%s%s panics: %s" % (op, args, x.get("panic") or y.get("panic")), op=op, args=args, init=init)
+        if x["slots"] != y["slots"] or x.get("int") != y.get("int"):
+            return dict(what="%s(%s): default and purego builds disagree: %s vs %s" % (op, ",".join(args), x["slots"].get(args[0]), y["slots"].get(args[0])), op=op, args=args, init=init)
+        if want is not None:
+            got = ref.fe_val(ref.parse_limbs(x["slots"][args[0]])) % ref.P
+            if got != want % ref.P:
+                return dict(what="%s(%s) = %d, expected %d (mod p), both builds" % (op, ",".join(args), got, want % ref.P), op=op, args=args, init=init)
+        for nm, v in init.items():
+            if nm != args[0] and x["slots"].get(nm) != v.replace(" ", ""):
+                pass
+    # feMul vs feMulGeneric in the same build (limb identity is what the kernels prove; values are what the property states)
+    byk = {}
+    for (op, args, init, want), x in zip(meta, r1):
+        byk.setdefault((tuple(args), json.dumps(init, sort_keys=True)), {})[op] = x["slots"][args[0]]
+    for key, d in byk.items():
+        for f, g in (("feMul", "feMulGeneric"), ("feSquare", "feSquareGeneric")):
+            if f in d and g in d and ref.fe_val(ref.parse_limbs(d[f])) % ref.P != ref.fe_val(ref.parse_limbs(d[g])) % ref.P:
+                return dict(what="%s and %s disagree for arguments %s: %s vs %s" % (f, g, key[0], d[f], d[g]), op=f, args=list(key[0]), init=json.loads(key[1]))
+    return None
+
+
+def safety_net(chk):
+    return config_battery(chk.seed)
+
+
 def k_purego(base2, chk, which):
     k, p, out, al, bl = K.k_mul(base2, chk, which)
     k.label = "purego " + which
@@ -110,7 +172,7 @@ def k_alias(base, chk, pat):
         k.goal(p1, "eq", "limb %d identical" % i, r1[i], r2[i])
     spec = k.dom.mul(p1, K.fval(al if A[1] == a else bl), K.fval(al if A[2] == a else bl))
     k.goal(p1, "congr", "aliased result = product mod p", K.fval(r1), spec, K.P)
-    k.replay = None
+    k.replay = lambda models, seed: config_battery(seed)
     k.settle()
 
 
@@ -127,4 +189,5 @@ def k_alias_sq(base, chk):
     for i in range(5):
         k.goal(p1, "eq", "limb %d identical" % i, r1[i], r2[i])
     k.goal(p1, "congr", "aliased result = a^2 mod p", K.fval(r1), k.dom.mul(p1, K.fval(al), K.fval(al)), K.P)
+    k.replay = lambda models, seed: config_battery(seed)
     k.settle()
